@@ -206,6 +206,7 @@ class SessionResult:
         self.lines = []          # merged trace for TLC
         self.script = []
         self.nreq = self.nedit = self.batch = 0
+        self.pubc0 = {}
         self.trace_cause = {}    # doc -> why the trace oracle says its last published diagnostics are not final
         self.hung = False
 
@@ -263,11 +264,16 @@ def run_session(base, sid, seed, two_docs, rounds, mutate_trace=None):
     try:
         if sess.initialize() is None:
             raise vlib.ToolError("server did not answer initialize")
-        for d in docs:
+        for d in docs:                      # one at a time: the open phase is not part of the recorded race
             sess.did_open(d.path, d.text)
-        sess.wait_quiet(quiet=0.4, timeout=30.0)
+            sess.wait_quiet(quiet=0.4, timeout=30.0)
         evs0 = read_trace(trace_path)
         start_seq = evs0[-1]["seq"] if evs0 else 0
+        # what the open phase left as the last published diagnostics of each document (cancelled = empty list, F8b)
+        cancelled0 = {e["task"] for e in evs0 if e["ev"] == "DiagError" and e["cancelled"]}
+        for e in evs0:
+            if e["ev"] == "DiagEmit" and e["uri"] in by_uri:
+                res.pubc0[by_uri[e["uri"]].name] = "cancelled" if e["task"] in cancelled0 else "ok"
         n_edit = 0
         ok = True
         for rd in range(rounds):
@@ -369,7 +375,8 @@ def merge(res, docs, by_uri, evs, responses, quiesce_marks, sess):
     sid = res.sid
     names = {d.name for d in docs}
     first = {d.name: d.tok(0) for d in docs}
-    lines = [{"ev": "Reset", "sess": sid, "docs": {n: first.get(n, "ABSENT") for n in ("d1", "d2")}}]
+    lines = [{"ev": "Reset", "sess": sid, "docs": {n: first.get(n, "ABSENT") for n in ("d1", "d2")},
+              "pubc": {n: res.pubc0.get(n, "ok") for n in ("d1", "d2")}}]
     client = list(res.script)                   # what the client sent, in order; element [4] = batch number
     task_doc, task_kind, task_req, diag_res, has_qd = {}, {}, {}, {}, set()
     for e in evs:
